@@ -7,7 +7,7 @@ ASSUMPTIONS = ["transactions are tagged with harness serial numbers (byte identi
                "sync-limit truncation and lost responses come from the schedule"]
 def run(ctx):
     cov, findings, diffs = None, [], []
-    for fl in ("faults", "static", "splitfaults"):
+    for fl in ("faults", "static", "splitfaults", "relag"):   # relag: a validator fast-forwards while it holds accepted, not yet recorded transactions
         res = simcommon.run(ctx, fl)
         f, d = simcommon.findings_for(res, "C05", ["pl", "SELF"])
         findings += f
